@@ -121,7 +121,7 @@ def dump_union(t):
             sel[member] = {"class": v.__name__}
         else:
             sel[member] = {"value": int(v), "text": f"{v}"}
-    d = {"members": dump_fields(t), "selected_by": sel}
+    d = {"members": dump_fields(t), "selected_by": sel, "selected_by_order": list(t._selected_by.keys())}
     if hasattr(t, "_list_size"):
         d["list_size"] = {k: int(v) for k, v in t._list_size.items()}
     return d
